@@ -148,7 +148,10 @@ RECIPES.update({
 })
 
 RECIPES.update({
-    'mpi_vegas': dict(unit='mpidrv', name='mpi_vegas', sel='vpinst::VCb', opts=dict(_DRV_OPTS, free_calls={
+    'vegas_chkpt_alpha': dict(unit='chkpt', name='alpha', cls='vegas_chkpt', self='vegas_chkpt'),
+    # unsigned wrap allowed in the driver: the positioning arithmetic usage * discard_before(...) is the subject of job c16_tiling (proved wrap-free there)
+    'mpi_vegas': dict(unit='mpidrv', name='mpi_vegas', sel='vpinst::VCb', allow_unsigned_wrap=True, opts=dict(_DRV_OPTS, rename={'vp_rng_vegas_chkpt_copy': 'vp_chk2_copy_abs'},
+        operator_calls={('vpinst_VCb', 'operator()'): (lambda em, n, args, dst: 'vp_callback_call(%s)' % em.arg(args[2], None))}, free_calls={
         'MPI_Comm_rank': (lambda em, n, args, dst: 'vp_mpi_comm_rank(%s, %s)' % (em.emit(args[0]), em.emit(args[1]))),
         'MPI_Comm_size': (lambda em, n, args, dst: 'vp_mpi_comm_size(%s, %s)' % (em.emit(args[0]), em.emit(args[1])))})),
 })
@@ -407,6 +410,16 @@ JOBS = [
                              dict(cname='vpinst_Fn', opaque=True), dict(unit='drivers', cls='integrand', cname='integrand'), dict(cname='vpinst_VCb', opaque=True)],
          preludes=['opaque.h'], late_preludes=['stubs_cb2.h'], globals='size_t vp_cb_calls, vp_cb_seen_n; _Bool vp_cb_ret; const void *vp_cb_arg; size_t vp_it_count, vp_it_calls; const void *vp_it_gen; size_t vp_g_done; size_t vp_chk_last_gen, vp_add_calls; const void *vp_add_result; size_t vp_state_calls, vp_setup_calls, vp_setup_arg; const void *vp_state_obj, *vp_it_state, *vp_it_result;',
          defines=['VP_ITMAX=65536', 'VP_NMAX=1048576'], props=['C12', 'C03', 'C19'], trusted=['the callback is user code: nondeterministic stub']),
+    dict(name='mpi_vegas_driver', functions=['mpi_vegas', 'vegas_iteration', 'rng_vegas_chkpt_add', 'rng_vegas_chkpt_generator', 'vegas_chkpt_pdf', 'vegas_chkpt_dimensions', 'integrand_dimensions',
+                                             'vegas_chkpt_alpha', 'vegas_result_adjustment_data', 'vegas_refine_pdf', 'vegas_pdf_dimensions', 'vegas_pdf_bins'],
+         specs=['mpi_vegas', 'drivers_abs', 'refine_abs'], harness_sections=['mpi_vegas'], entry='h_mpi_vegas', enforce='mpi_vegas',
+         replace=['vegas_iteration', 'rng_vegas_chkpt_add', 'rng_vegas_chkpt_generator', 'vegas_chkpt_pdf', 'vegas_chkpt_dimensions', 'vegas_refine_pdf'],
+         stub_bodies=['vegas_iteration', 'rng_vegas_chkpt_add', 'rng_vegas_chkpt_generator', 'vegas_chkpt_pdf', 'vegas_chkpt_dimensions', 'vegas_refine_pdf'],
+         structs=_ST_VCHK + [dict(prelude='rngvec.h'), dict(unit='chkpt', cls='chkpt_with_rng', cls_targs_has='vegas_chkpt', cname='rng_vegas_chkpt'),
+                             dict(cname='vpinst_Fn', opaque=True), dict(unit='drivers', cls='integrand', cname='integrand'), dict(cname='vpinst_VCb', opaque=True)],
+         preludes=['opaque.h'], late_preludes=['stubs_cb2.h'], globals='size_t vp_cb_calls, vp_cb_seen_n; _Bool vp_cb_ret; const void *vp_cb_arg; size_t vp_it_count, vp_it_calls; const void *vp_it_gen; size_t vp_g_done; size_t vp_chk_last_gen, vp_add_calls; const void *vp_add_result; size_t vp_state_calls, vp_setup_calls, vp_setup_arg; const void *vp_state_obj, *vp_it_state, *vp_it_result; ' + _REFGHOST,
+         defines=['VP_ITMAX=65536', 'VP_NMAX=1048576'], props=['C04', 'C19', 'C12', 'C07'],
+         trusted=['the callback is a nondeterministic stub (its rank-independence: job mpi_callback)', 'allreduce_result, the iteration, the refinement and the checkpoint are abstract, logged contracts here; discard amounts are job c16_tiling']),
     dict(name='multi_channel_driver', functions=['multi_channel', 'multi_channel_iteration', 'rng_multi_channel_chkpt_add', 'rng_multi_channel_chkpt_generator', 'multi_channel_chkpt_channel_weights', 'multi_channel_chkpt_channels', 'multi_channel_integrand_channels'],
          specs=['multi_channel', 'drivers_abs'], harness_sections=['multi_channel'], entry='h_multi_channel', enforce='multi_channel',
          replace=['multi_channel_iteration', 'rng_multi_channel_chkpt_add', 'rng_multi_channel_chkpt_generator', 'multi_channel_chkpt_channel_weights', 'multi_channel_chkpt_channels'],
